@@ -1,6 +1,7 @@
 package sim
 
 import (
+	"context"
 	"encoding/json"
 	"errors"
 	"fmt"
@@ -1009,6 +1010,29 @@ func (w *World) opDiffLinks(op *Op) {
 		if D > 0 && D*4 < len(setA)+len(setB) {
 			w.st.Probes["small-delta-in-big-tree"]++
 		}
+		// two different Persist values over one store (e.g. one client wrapper object per LoadMast):
+		// equal names are still equal nodes
+		if va != nil {
+			oldM, r1 := w.loadRoot(va.root, d, nil, nil)
+			newM, r2 := w.loadRoot(vb.root, d, nil, &persistAlias{disk})
+			if r1.bad() || r2.bad() {
+				w.failFor("C05", "reload-fails", "LoadMast: %s %s", r1, r2)
+				return
+			}
+			disk.BeginCall()
+			rr = guard(func() error {
+				return newM.DiffIter(ctx, oldM, func(a, r bool, k, av, rv interface{}) (bool, error) { return true, nil })
+			})
+			loadedAlias, _, _, _ := disk.Window()
+			if rr.bad() {
+				w.failFor("C06", "diffiter-fails/"+rel, "DiffIter(%s, two Persist values): %s", rel, rr)
+				return
+			}
+			w.st.Probes["diff-cost-two-persist-values-one-store"]++
+			if tooMuch("diffiter", "/two-persist-values", len(loadedAlias)) {
+				return
+			}
+		}
 		// mixed provenance: one side opened through the world's shared cache (which may hold node
 		// objects this process wrote), the other cache-less. A cache can only save reads, so the
 		// same bound applies to what reaches the store.
@@ -1043,6 +1067,17 @@ func (w *World) opDiffLinks(op *Op) {
 			}
 		}
 	}
+}
+
+// persistAlias is a second Persist value over the same store (same prefix, same contents).
+type persistAlias struct{ d *SimDisk }
+
+func (p *persistAlias) NodeURLPrefix() string { return p.d.NodeURLPrefix() }
+func (p *persistAlias) Load(c context.Context, name string) ([]byte, error) {
+	return p.d.Load(c, name)
+}
+func (p *persistAlias) Store(c context.Context, name string, b []byte) error {
+	return p.d.Store(c, name, b)
 }
 
 func toSet(s []string) map[string]bool {
